@@ -266,6 +266,10 @@ class Topo:
                     # is connected or disconnected later
                     s = score.zip(ups[0], 123, *ups[1:])
                     m.literal = (1, 123)
+                elif i % 4 == 3:
+                    # ... also as the last argument (with fewer inputs left it follows them)
+                    s = score.zip(*ups, 123)
+                    m.literal = (len(ups), 123)
                 else:
                     s = score.zip(*ups)
             elif kind == "combine_latest":
